@@ -345,6 +345,30 @@ func (r *Run) checkListing(fn *Func, over string, rule string) {
 				}
 			}
 			appended := false
+			// out[i] = elem; i++ : a slot of its own for the element (the index advances in the same iteration)
+			var slotIdx types.Object
+			bumped := map[types.Object]bool{}
+			for j := i + 1; j < end; j++ {
+				pe := path.Events[j]
+				if pe.Kind != EvAssign {
+					continue
+				}
+				if (pe.Tok == token.INC || pe.Tok == token.ADD_ASSIGN) && len(pe.Lhs) == 1 {
+					if id, ok := ast.Unparen(pe.Lhs[0]).(*ast.Ident); ok {
+						bumped[pe.Fn.Info().Uses[id]] = true
+					}
+				}
+				if (pe.Tok == token.ASSIGN) && len(pe.Lhs) == 1 && len(pe.Rhs) == 1 {
+					if ix, ok := ast.Unparen(pe.Lhs[0]).(*ast.IndexExpr); ok && strings.HasPrefix(r.P.Canon(pe.Fn, pe.Rhs[0]), "rangeval("+over+")") {
+						if id, ok := ast.Unparen(ix.Index).(*ast.Ident); ok {
+							slotIdx = pe.Fn.Info().Uses[id]
+						}
+					}
+				}
+			}
+			if slotIdx != nil && bumped[slotIdx] {
+				appended = true
+			}
 			for j := i + 1; j < end; j++ {
 				pe := path.Events[j]
 				if pe.Kind == EvGuard && pe.GKind != GRange {
